@@ -90,6 +90,11 @@ type c19Life struct {
 	// the client session reaches the directory through a relay of the harness (a unix socket that
 	// forwards every frame in order, and can delay the frames towards the session)
 	Relay bool `json:"relay,omitempty"`
+	// every service behind an endpoint advertises TWO addresses, the first of which cannot be connected:
+	// 1: tcp://198.18.0.1:9559 (test range, as real robots advertise; SelectEndPoint skips it),
+	// 2: a unix socket that does not exist (the dial fails).  The connection — and the pool entry — is
+	// the second address's.
+	Multi int `json:"multi,omitempty"`
 }
 
 type c19PhaseObs struct {
@@ -334,7 +339,14 @@ func runC19LifeChild(res *hx.Result, rng *hx.Rng, tier string, outdir string) {
 			fail("listen", err)
 		}
 		gates[e] = newC19Gate(inner, coord)
-		ns, err := services.Namespace(srvSess, []string{addrs[e]})
+		advertised := []string{addrs[e]}
+		switch lf.Multi {
+		case 1:
+			advertised = []string{"tcp://198.18.0.1:9559", addrs[e]}
+		case 2:
+			advertised = []string{"unix://" + filepath.Join(lf.Dir, fmt.Sprintf("nobody%d.sock", e)), addrs[e]}
+		}
+		ns, err := services.Namespace(srvSess, advertised)
 		if err != nil {
 			fail("namespace", err)
 		}
@@ -407,6 +419,17 @@ func runC19LifeChild(res *hx.Result, rng *hx.Rng, tier string, outdir string) {
 	if err != nil {
 		fail("client session", err)
 	}
+	// the address of a listed service that can be connected: the last one it advertises
+	connectable := func(i services.ServiceInfo) string {
+		want := 1
+		if lf.Multi > 0 && len(i.Endpoints) > 0 && i.Endpoints[len(i.Endpoints)-1] != dirAddr {
+			want = 2
+		}
+		if len(i.Endpoints) != want {
+			return ""
+		}
+		return i.Endpoints[want-1]
+	}
 	find := func(name string) (services.ServiceInfo, bool) {
 		for _, i := range session.VerifServices(sess) {
 			if i.Name == name {
@@ -432,7 +455,7 @@ func runC19LifeChild(res *hx.Result, rng *hx.Rng, tier string, outdir string) {
 	for s := 0; s < lf.NSvc; s++ {
 		e := home[s]
 		if !waitListed(s, func(i services.ServiceInfo, ok bool) bool {
-			return ok && len(i.Endpoints) == 1 && i.Endpoints[0] == addrs[e]
+			return ok && connectable(i) == addrs[e]
 		}) {
 			fail("set-up", fmt.Errorf("service %d never appeared in the session's list", s))
 		}
@@ -449,12 +472,12 @@ func runC19LifeChild(res *hx.Result, rng *hx.Rng, tier string, outdir string) {
 				continue
 			}
 			e := 99
-			if len(i.Endpoints) == 1 {
-				if i.Endpoints[0] == dirAddr {
+			if c := connectable(i); c != "" {
+				if c == dirAddr {
 					e = lf.NEnd
 				}
 				for x, a := range addrs {
-					if i.Endpoints[0] == a {
+					if c == a {
 						e = x
 					}
 				}
@@ -762,7 +785,7 @@ func runC19LifeChild(res *hx.Result, rng *hx.Rng, tier string, outdir string) {
 				fail("register again", err)
 			}
 			po.Listed = waitListed(ph.Svc, func(i services.ServiceInfo, ok bool) bool {
-				return ok && len(i.Endpoints) == 1 && i.Endpoints[0] == addrs[ph.To] && i.ServiceId == lastID[ph.Svc]
+				return ok && connectable(i) == addrs[ph.To] && i.ServiceId == lastID[ph.Svc]
 			})
 			po.View = viewOf(session.VerifServices(sess))
 			observe(&po)
@@ -1022,6 +1045,12 @@ func (lf c19Life) String() string {
 	if lf.Relay {
 		via = " (connected to the directory through a relay of the harness)"
 	}
+	switch lf.Multi {
+	case 1:
+		via += " (every service behind e_i advertises tcp://198.18.0.1:9559 first, then e_i)"
+	case 2:
+		via += " (every service behind e_i advertises a unix socket nobody listens on first, then e_i)"
+	}
 	return fmt.Sprintf("life on one session%s, %d endpoints, services s0..s%d (s_i first behind e_(i mod %d)): %s",
 		via, lf.NEnd, lf.NSvc-1, lf.NEnd, strings.Join(ps, " ; "))
 }
@@ -1228,7 +1257,7 @@ func c19FinalRound(nsvc int) c19Phase {
 // registered service.
 func c19GenViewLife(rng *hx.Rng, trials int) c19Life {
 	ne := 1 + rng.Intn(3)
-	lf := c19Life{NEnd: ne, NSvc: ne + rng.Intn(2), Relay: rng.Bool()}
+	lf := c19Life{NEnd: ne, NSvc: ne + rng.Intn(2), Relay: rng.Bool(), Multi: rng.Intn(3)}
 	home := make([]int, lf.NSvc)
 	reg := make([]bool, lf.NSvc)
 	for i := range home {
@@ -1367,7 +1396,7 @@ func c19DirectedViewLives() []c19Life {
 	// the schedule forced through the relay: one change, the refresh it triggers takes its snapshot,
 	// ONE further change (registration / removal / move), then the reply of that refresh and the
 	// signal of the further change reach the session together
-	lf := c19Life{NEnd: 2, NSvc: 2, Relay: true, Phases: []c19Phase{{Kind: "burst", Reqs: []c19Req{rq("proxy", 0), rq("hook", 1), rq("object", 1)}}}}
+	lf := c19Life{NEnd: 2, NSvc: 2, Relay: true, Multi: 1, Phases: []c19Phase{{Kind: "burst", Reqs: []c19Req{rq("proxy", 0), rq("hook", 1), rq("object", 1)}}}}
 	livef := []int{0, 1}
 	n := 2
 	for t := 0; t < 10; t++ {
@@ -1452,7 +1481,7 @@ func c19DirectedViewLives() []c19Life {
 	lf.Phases = append(lf.Phases, c19FinalRoundOf(left))
 	out = append(out, lf)
 	// services that move in pairs (removed and registered again at once, new id, other endpoint)
-	lf = c19Life{NEnd: 2, NSvc: 4, Phases: []c19Phase{{Kind: "burst", Seq: true, Reqs: []c19Req{rq("object", 0), rq("proxy", 1), rq("hook", 2), rq("proxy", 3)}}}}
+	lf = c19Life{NEnd: 2, NSvc: 4, Multi: 2, Phases: []c19Phase{{Kind: "burst", Seq: true, Reqs: []c19Req{rq("object", 0), rq("proxy", 1), rq("hook", 2), rq("proxy", 3)}}}}
 	where := []int{0, 1, 0, 1}
 	for t := 0; t < 10; t++ {
 		a, b := t%4, (t+1+t/4)%4
@@ -1600,6 +1629,10 @@ func runC19Lives(res *hx.Result, rng *hx.Rng, tier string, outdir string, defect
 	for i := 0; i < n; i++ {
 		lives = append(lives, c19GenLife(rng))
 	}
+	// two lives in three with services that advertise an unreachable address first
+	for i := range lives {
+		lives[i].Multi = i % 3
+	}
 	// the session's view of the directory over time (bursts of registrations during refreshes)
 	nv, trials := 4, 10
 	if tier == "thorough" {
@@ -1629,6 +1662,7 @@ func runC19Lives(res *hx.Result, rng *hx.Rng, tier string, outdir string, defect
 		res.Count(desc, sm.afterLos || sm.burstReg)
 		res.Dist("life:outcome:" + o.class)
 		res.Dist(fmt.Sprintf("life:endpoints:%d", lf.NEnd))
+		res.Dist([]string{"life:services-advertise:one-address", "life:services-advertise:test-range-address-first", "life:services-advertise:dead-unix-socket-first"}[lf.Multi])
 		for _, ph := range lf.Phases {
 			switch ph.Kind {
 			case "lose":
